@@ -437,7 +437,7 @@ func (mc *ModbusClient) ReadUint32s(addr uint16, quantity uint16, regType RegTyp
 	var mbPayload	[]byte
 
 	// read 2 * quantity uint16 registers, as bytes
-	mbPayload, err	= mc.readRegisters(addr, quantity * 2, regType)
+	mbPayload, err	= mc.readRegisters(addr, registerCount(quantity, 2), regType)
 	if err != nil {
 		return
 	}
@@ -465,7 +465,7 @@ func (mc *ModbusClient) ReadFloat32s(addr uint16, quantity uint16, regType RegTy
 	var mbPayload	[]byte
 
 	// read 2 * quantity uint16 registers, as bytes
-	mbPayload, err	= mc.readRegisters(addr, quantity * 2, regType)
+	mbPayload, err	= mc.readRegisters(addr, registerCount(quantity, 2), regType)
 	if err != nil {
 		return
 	}
@@ -493,7 +493,7 @@ func (mc *ModbusClient) ReadUint64s(addr uint16, quantity uint16, regType RegTyp
 	var mbPayload	[]byte
 
 	// read 4 * quantity uint16 registers, as bytes
-	mbPayload, err	= mc.readRegisters(addr, quantity * 4, regType)
+	mbPayload, err	= mc.readRegisters(addr, registerCount(quantity, 4), regType)
 	if err != nil {
 		return
 	}
@@ -521,7 +521,7 @@ func (mc *ModbusClient) ReadFloat64s(addr uint16, quantity uint16, regType RegTy
 	var mbPayload	[]byte
 
 	// read 4 * quantity uint16 registers, as bytes
-	mbPayload, err	= mc.readRegisters(addr, quantity * 4, regType)
+	mbPayload, err	= mc.readRegisters(addr, registerCount(quantity, 4), regType)
 	if err != nil {
 		return
 	}
@@ -875,6 +875,19 @@ func (mc *ModbusClient) WriteRawBytes(addr uint16, values []byte) (err error) {
 }
 
 /*** unexported methods ***/
+// Returns the number of 16-bit registers spanned by quantity values of
+// regsPerValue registers each. Totals which do not fit 16 bits saturate at
+// 0xffff (always above protocol limits) instead of wrapping around.
+func registerCount(quantity uint16, regsPerValue uint16) (count uint16) {
+	if uint32(quantity) * uint32(regsPerValue) > 0xffff {
+		count = 0xffff
+	} else {
+		count = quantity * regsPerValue
+	}
+
+	return
+}
+
 // Reads one or multiple 16-bit registers (function code 03 or 04) as bytes.
 func (mc *ModbusClient) readBytes(addr uint16, quantity uint16, regType RegType, observeEndianness bool) (values []byte, err error) {
 	var regCount uint16
